@@ -4,28 +4,32 @@
 EXTENDS LfsValues, Json, IOUtils
 CONSTANTS MaxLen
 
-\* two digits, '.', upper letter, lower letter, another ASCII character, a non-ASCII numeric character
-GvAlphabet == <<48, 55, 46, 69, 101, 45, 200001>>
+\* two digits, '.', upper letter, lower letter, another ASCII character, a non-ASCII numeric character, a non-ASCII letter
+GvAlphabet == <<48, 55, 46, 69, 101, 45, 200001, 233>>
 RECURSIVE Strings(_)
 Strings(n) == IF n = 0 THEN {<<>>} ELSE LET prev == Strings(n - 1) IN prev \cup {Append(s, GvAlphabet[i]) : s \in {t \in prev : Len(t) = n - 1}, i \in 1..Len(GvAlphabet)}
 
 \* version set: number texts in increasing numeric order (rank = index), letters, revisions
-Nums == << <<48, 46, 53>>, <<48, 46, 54>>, <<48, 46, 55>>, <<49>> >>              \* 0.5 0.6 0.7 1
+\* 0.5 0.6 0.7 1 - and other spellings of the same numbers (0.70 .7 00.7 0.7000000001 (the same 32-bit float) 1.0 01)
+Nums == << <<48, 46, 53>>, <<48, 46, 54>>, <<48, 46, 55>>, <<49>>,
+           <<48, 46, 55, 48>>, <<46, 55>>, <<48, 48, 46, 55>>, <<48, 46, 55, 48, 48, 48, 48, 48, 48, 48, 48, 49>>, <<49, 46, 48>>, <<48, 49>> >>
+NumRank == <<1, 2, 3, 4, 3, 3, 3, 3, 4, 4>>
 Letters == <<65, 69, 90, 101>>                                                     \* A E Z e(=E)
 Patches == <<-1, 0, 1, 12>>
 RECURSIVE Digits(_)
 Digits(n) == IF n < 10 THEN <<48 + n>> ELSE Digits(n \div 10) \o <<48 + (n % 10)>>
 VerText(ni, li, pi) == Nums[ni] \o <<Letters[li]>> \o (IF Patches[pi] < 0 THEN <<>> ELSE Digits(Patches[pi]))
-VerKey(ni, li, pi) == [num |-> ni, minor |-> Upper(Letters[li]), patch |-> Patches[pi]]
+VerKey(ni, li, pi) == [num |-> NumRank[ni], minor |-> Upper(Letters[li]), patch |-> Patches[pi]]
 Versions == {<<ni, li, pi>> : ni \in 1..Len(Nums), li \in 1..Len(Letters), pi \in 1..Len(Patches)}
 
 \* order axioms on the model, all triples
 KeyOf(v) == VerKey(v[1], v[2], v[3])
+Keys == {KeyOf(v) : v \in Versions}
 OrderAxioms ==
-  /\ \A a \in Versions : GvCmp(KeyOf(a), KeyOf(a)) = 0
-  /\ \A a, b \in Versions : GvCmp(KeyOf(a), KeyOf(b)) = -GvCmp(KeyOf(b), KeyOf(a))
-  /\ \A a, b \in Versions : (GvCmp(KeyOf(a), KeyOf(b)) = 0) = GvEq(KeyOf(a), KeyOf(b))
-  /\ \A a, b, c \in Versions : (GvCmp(KeyOf(a), KeyOf(b)) <= 0 /\ GvCmp(KeyOf(b), KeyOf(c)) <= 0) => GvCmp(KeyOf(a), KeyOf(c)) <= 0
+  /\ \A a \in Keys : GvCmp(a, a) = 0
+  /\ \A a, b \in Keys : GvCmp(a, b) = -GvCmp(b, a)
+  /\ \A a, b \in Keys : (GvCmp(a, b) = 0) = GvEq(a, b)
+  /\ \A a, b, c \in Keys : (GvCmp(a, b) <= 0 /\ GvCmp(b, c) <= 0) => GvCmp(a, c) <= 0
 ASSUME OrderAxioms
 
 \* vehicle boundary bytes in each of the three name positions
